@@ -39,7 +39,11 @@ class _Handler(http.server.BaseHTTPRequestHandler):
 
     def _send(self, code, body=b'', ctype='text/plain', extra=()):
         self.send_response(code)
-        self.send_header('Content-Type', ctype)
+        if code >= 400 and getattr(self.s3, 'bare_errors', False):
+            # an error answered with a bare status line: no body, no Content-Type (a proxy in front of the store)
+            body = b''
+        else:
+            self.send_header('Content-Type', ctype)
         self.send_header('Content-Length', str(len(body)))
         for k, v in extra:
             self.send_header(k, v)
